@@ -1449,6 +1449,69 @@ def oracle_alias(ctx, classes, per_class):
                                                    "p": list(p), "v": v})
 
 
+def check_lazy_assign(cls, p, v_ctor, v, q, w, form, ctor_mode):
+    """the object is BUILT with style arguments (leaf p = v_ctor, leaf q = w) and its style is never read; then a
+    style is assigned (instance / dict through the setter / update): the assignment is the last one and wins,
+    exactly as if the style had been read in between.  returns None or what"""
+    p, q = tuple(p), tuple(q)
+
+    def build():
+        if ctor_mode == "kwargs":
+            return make_obj(cls, None, {"style_" + "_".join(p): v_ctor, "style_" + "_".join(q): w})
+        d = nest(p, v_ctor)
+        d2 = nest(q, w)
+        return make_obj(cls, {**d, **{k: x for k, x in d2.items() if k not in d}} if p[0] != q[0]
+                        else nest(p, v_ctor))
+    twin = build()
+    twin.style              # pylint: disable=pointless-statement
+    o = build()             # style NOT read
+    if form == "instance":
+        src = make_obj(cls)
+        apply_set(src.style, p, v, ("attr", 0))
+        o.style = src.style
+        twin.style = src.style
+    elif form == "dict":
+        o.style = nest(p, v)
+        twin.style = nest(p, v)
+    else:
+        o.style.update(nest(p, v))
+        twin.style.update(nest(p, v))
+    got, want = canon(o.style.as_dict()), canon(twin.style.as_dict())
+    if not same(leaf_value(twin.style, p), canon(v)):
+        return f"{cls}: {form} assignment of {'.'.join(p)}={v!r} after construction did not win even with the style read"
+    if not same(got, want):
+        leaf = tree_diff(got, want)[0]
+        return (f"{cls} built with style {ctor_mode} ({'.'.join(p)}={v_ctor!r}, {'.'.join(q)}={w!r}), style never read, then "
+                f"{form} assignment of {'.'.join(p)}={v!r}: {'.'.join(leaf)} is {tget(got, leaf)!r}, but "
+                f"{tget(want, leaf)!r} when the style was read before the assignment")
+    return None
+
+
+def oracle_lazy(ctx, classes, per_class):
+    rng = ctx.rng
+    for cls in classes:
+        if cls == "MagpyMarkers":
+            continue
+        ls = [l for l in leaves(class_struct(cls)) if len(fixed_points(l[1])) >= 2 and l[2] is None
+              and l[0] != ("label",)]
+        for form in ("instance", "dict", "update"):
+            for ctor_mode in ("kwargs", "dict"):
+                for _ in range(per_class):
+                    (p, kind, _), (q, kind2, _) = rng.sample(ls, 2)
+                    v_ctor, v = rng.sample(fixed_points(kind), 2)
+                    w = rng.choice(fixed_points(kind2))
+                    try:
+                        res = check_lazy_assign(cls, p, v_ctor, v, q, w, form, ctor_mode)
+                    except Exception as e:   # pylint: disable=broad-except
+                        res = f"{cls}: {type(e).__name__}: {e}"
+                    ctx.case(("lazy", cls, form, ctor_mode, p, q), True)
+                    ctx.bump("lazy-constructor-style:" + form)
+                    if res is not None:
+                        ctx.impl_fail(f"last-wins/lazy-constructor-style:{form}", res,
+                                      {"kind": "lazy", "cls": cls, "p": list(p), "v_ctor": v_ctor, "v": v,
+                                       "q": list(q), "w": w, "form": form, "ctor_mode": ctor_mode})
+
+
 def oracle_extra(ctx, classes, per_class):
     rng = ctx.rng
     for cls in classes:
@@ -1938,6 +2001,8 @@ def run(ctx):
 
     run_guarded(ctx, lambda: oracle_family_default(ctx, sub), "C20 family-default / fresh-object oracle")
 
+    run_guarded(ctx, lambda: oracle_lazy(ctx, classes, 3 if big else 1), "C20 lazy constructor style oracle")
+
     def failed_show():
         res = check_failed_show()
         ctx.case(("failed-show",), True)
@@ -1994,6 +2059,9 @@ def replay(ctx, obj):
         res = None if not r else f"a new {rp['cls']} has own values {r!r}"
     elif k == "family-default":
         res = check_family_default(rp["cls"], rp["p"], rp["v"], rp["when"])
+    elif k == "lazy":
+        res = check_lazy_assign(rp["cls"], rp["p"], rp["v_ctor"], rp["v"], rp["q"], rp["w"], rp["form"],
+                                rp["ctor_mode"])
     elif k == "failed-show":
         res = check_failed_show()
     elif k == "show-figure":
